@@ -11,13 +11,16 @@ inductive FileL | absent | present | zero | malformed
 deriving DecidableEq, Repr
 -- `zero`: present in the file with the zero value ("" / [] / 0)
 
-inductive EnvL | unset | empty | present | malformed
+inductive EnvL | unset | empty | present | malformed | zero
 deriving DecidableEq, Repr
+-- `zero`: set to a well-formed zero ("0", "0s"); only the numeric / duration settings can have it
+-- (for the string settings an empty value is `empty`: ignored)
 
 /-- where the effective value came from -/
 inductive Tok | D | F | E | Z | C
 deriving DecidableEq, Repr
--- D default, F file, E environment, Z zero value from the file, C clamped to the minimum (100)
+-- D default, F file, E environment, Z zero value (from the file, or a zero in the environment),
+-- C clamped to the minimum (100)
 
 structure Setting where
   file : FileL
@@ -54,6 +57,7 @@ def afterEnv (s : Setting) : Except Err Tok :=
   match s.env with
   | .unset | .empty => .ok (afterFile s)
   | .present => .ok .E
+  | .zero => .ok .Z                      -- a parsed zero is a value like any other: it wins
   | .malformed => .error .envParse
 
 structure Eff where
